@@ -235,6 +235,34 @@ def gen_wait_spec(rng: random.Random) -> dict:
     return {"steps": steps, "externals": ext}
 
 
+def gen_det_spec(rng: random.Random, *, delays: bool = False) -> dict:
+    """deterministic workflows (result and store independent of the schedule): start fans k events to a
+    worker step (1..3 workers, optional retries) that marks the store and forwards; a single-worker
+    collector gathers all k and stops with the sorted uids.  Event uids are derived from the parent."""
+    k = rng.randint(2, 4)
+    nfail = rng.choice([0, 0, 1, 2])
+    budget = nfail + rng.randint(1, 2)
+    wait = rng.choice([2, 5]) if delays else 0
+    pol = {"kind": "attempts", "n": budget, "wait": wait} if (nfail or rng.random() < 0.3) else None
+    start = {"name": "s00", "accepts": [0], "nw": 1, "retry": None,
+             "script": ([["gate"]] if rng.random() < 0.3 else []) + [["send", 5, None, i] for i in range(k)] + [["ret", "none"]]}
+    wscript: list = []
+    if rng.random() < 0.7:
+        wscript.append(["gate"])
+    wscript.append(["store_mark"])
+    if nfail:
+        wscript.append(["fail_until", nfail, rng.randint(1, 9)])
+    if rng.random() < 0.5:
+        wscript.append(["gate"])
+    wscript.append(["ret", "6"])
+    worker = {"name": "s02", "accepts": [5], "nw": rng.randint(1, 3), "retry": pol, "script": wscript}
+    coll = {"name": "s04", "accepts": [6], "nw": 1, "retry": None,
+            "script": ([["gate"]] if rng.random() < 0.4 else []) + [["collect", [6] * k], ["store_set", "done", 1], ["ret", "stop", "collected"]]}
+    steps = [start, worker, coll]
+    rng.shuffle(steps)
+    return {"steps": steps, "externals": [], "det_uids": True}
+
+
 _general = gen_spec
 
 
